@@ -152,9 +152,9 @@ def oracle(c):
             return ('error-without-position', {'message': str(e.msg)[:200]})
         if not (0 <= e.pos <= len(s)):
             return ('error-position-out-of-range', {'pos': e.pos})
-        if (e.lineno, e.colno) != _lc(s, e.pos):
+        if (e.lineno, e.colno) != PC.expected_linecol(d, s, e.pos):
             return ('error-line-col-mismatch', {'pos': e.pos, 'observed': [e.lineno, e.colno],
-                                                'expected': list(_lc(s, e.pos))})
+                                                'expected': list(PC.expected_linecol(d, s, e.pos))})
         return None
     if d.get('origin') == 'fault' and 'base' in d:
         sites = _fault_sites(d['base'], d['ctx'])
